@@ -177,3 +177,82 @@ Proof. destruct v as [s|z|[|]]; reflexivity. Qed.
 Theorem header_entry_desc (f : hfmt) (k : str) (v : value) (desc : str) :
   desc <> [] -> header_entry f k v desc = format_desc f desc ++ header_entry f k v [].
 Proof. intros H. unfold header_entry. destruct desc; [congruence|reflexivity]. Qed.
+
+(* ------------------------------------------------------------------ the include guard / the formats *)
+(* output_format 'c' with a macro_name: the entries stand between "#ifndef M / #define M" and "#endif";
+   without: "#pragma once" and nothing after the entries; nasm: its own prelude, no guard *)
+Theorem header_guard_c (macro : str) (d : conf) :
+  macro <> [] ->
+  dump_header HC macro d
+  = c_prelude (s2l "#ifndef " ++ macro ++ [10] ++ s2l "#define " ++ macro)
+    ++ concat (map (header_key HC d) (sorted_keys d)) ++ s2l "#endif" ++ [10].
+Proof. intros H. unfold dump_header, prelude, epilogue. destruct macro; [congruence|reflexivity]. Qed.
+Theorem header_pragma_once (d : conf) :
+  dump_header HC [] d = c_prelude (s2l "#pragma once") ++ concat (map (header_key HC d) (sorted_keys d)).
+Proof. unfold dump_header, prelude, epilogue. rewrite app_nil_r. reflexivity. Qed.
+Theorem header_nasm_no_guard (macro : str) (d : conf) :
+  dump_header HNasm macro d = nasm_prelude ++ concat (map (header_key HNasm d) (sorted_keys d)).
+Proof. unfold dump_header, prelude, epilogue. destruct macro; rewrite app_nil_r; reflexivity. Qed.
+
+(* ------------------------------------------------------------------ output_format 'json' *)
+Definition json_entry (e : entry) : str := json_item (fst e) (fst (snd e)).
+
+(* one JSON object holding exactly the items of the data (a permutation of them), once each, keys
+   strictly increasing, separated by ", " *)
+Theorem json_exact (d : conf) :
+  NoDup (keys d) ->
+  exists es : list entry,
+    Permutation es d /\ StronglySorted str_lt (map fst es) /\
+    dump_json d = 123 :: join [44; 32] (map json_entry es) ++ [125].
+Proof.
+  intros Hn. destruct (sorted_keys_spec d Hn) as [P [S N]].
+  exists (pick d (sorted_keys d)).
+  assert (Hk : forall k, In k (sorted_keys d) -> In k (keys d)).
+  { intros k H. eapply Permutation_in; [apply Permutation_sym; exact P|exact H]. }
+  assert (Hf : map fst (pick d (sorted_keys d)) = sorted_keys d) by (apply pick_keys; exact Hk).
+  split; [|split].
+  - apply NoDup_map_fst_perm.
+    + rewrite Hf. exact N.
+    + exact Hn.
+    + intros e. apply pick_in.
+    + transitivity (length (map fst (pick d (sorted_keys d)))); [symmetry; apply map_length|].
+      rewrite Hf. rewrite <- (Permutation_length P). unfold keys. apply map_length.
+  - rewrite Hf. exact S.
+  - unfold dump_json. f_equal. f_equal. f_equal.
+    rewrite <- Hf at 1. rewrite map_map. apply map_ext_in. intros e He.
+    destruct e as [k [v desc]]. unfold json_key, json_entry. cbn [fst snd].
+    rewrite (lookup_entry_in d k (v, desc) Hn (pick_in d _ _ He)). reflexivity.
+Qed.
+
+(* the text of a JSON string never contains a raw quote, backslash-free quote or a non-ASCII /
+   control character: every character is escaped as json.encoder does *)
+Definition printable (x : char) : bool := (32 <=? x) && (x <=? 126).
+Lemma hex_digit_printable n : n < 16 -> printable (hex_digit n) = true.
+Proof.
+  intros H. unfold hex_digit, printable. destruct (n <? 10) eqn:E.
+  - apply N.ltb_lt in E. apply andb_true_iff. split; apply N.leb_le; lia.
+  - apply N.ltb_ge in E. apply andb_true_iff. split; apply N.leb_le; lia.
+Qed.
+Lemma hex4_printable n : forallb printable (hex4 n) = true.
+Proof.
+  unfold hex4. cbn [forallb].
+  rewrite !hex_digit_printable by (apply N.mod_upper_bound; discriminate). reflexivity.
+Qed.
+(* a JSON string is printable ASCII only: every other character is escaped as json.encoder does *)
+Lemma json_char_printable (c : char) : forallb printable (json_char c) = true.
+Proof.
+  unfold json_char.
+  destruct (c =? 92); [reflexivity|]. destruct (c =? 34); [reflexivity|].
+  destruct ((32 <=? c) && (c <=? 126)) eqn:E; [cbn [forallb]; unfold printable; rewrite E; reflexivity|].
+  destruct (c =? 10); [reflexivity|]. destruct (c =? 13); [reflexivity|]. destruct (c =? 9); [reflexivity|].
+  destruct (c =? 8); [reflexivity|]. destruct (c =? 12); [reflexivity|].
+  destruct (c <? 65536).
+  - cbn [forallb]. rewrite hex4_printable. reflexivity.
+  - cbn [forallb]. rewrite forallb_app. cbn [forallb]. rewrite !hex4_printable. reflexivity.
+Qed.
+Theorem json_str_printable (s : str) : forallb printable (json_str s) = true.
+Proof.
+  unfold json_str. cbn [forallb]. rewrite forallb_app. cbn [forallb]. rewrite andb_true_r.
+  change (printable 34) with true. cbn [andb].
+  induction s as [|c s IH]; [reflexivity|]. cbn [map concat]. rewrite forallb_app, json_char_printable, IH. reflexivity.
+Qed.
